@@ -8,6 +8,14 @@ CHECKS = {
          "Exploration: tens of thousands (quick) to millions (thorough) of generated module sets that the real load+compile accepts are evaluated and turned into YAML; a panic, abort, stack overflow or CPU-limit is a violation, a located error value is not. The generators cover the full language incl. multi-module programs, functions, recursion, references and the kind confusions the checker's coarse tags admit. Four root causes are known findings (F1-F4) with narrow signatures; anything else fails the check.",
          "Trusts the in-memory Loader wrapper (it calls the real parse and compile) and the structural labels computed through oal's public syntax API that serve as preconditions of the known findings.",
          "DESIGN.md §4 C01"),
+ "C07": ("differential testing of the unifier against a reference Robinson unifier on generated equation systems; metamorphic permutation/renaming of programs; accepted/rejected by construction",
+         "Exploration: ~1.3 million unifier runs per quick pass - each generated system (solvable by construction, with a planted occurs violation, or free) must get the reference unifier's verdict and most general solution up to variable renaming, in 5 orders with swapped sides; non-termination and stack overflow are caught by the CPU watchdog and the driver. Programs keep verdict and error kind under statement permutation and consistent renaming; strict-fragment programs are accepted, and eight sorts of injected kind errors are rejected with InvalidType.",
+         "Needs hook H1 (re-export of the private inference module). The reference unifier and the kind-error injections are the harness's own; the error-kind comparison relies on the fixed order of compile phases.",
+         "DESIGN.md §4 C07"),
+ "C10": ("exhaustive small-scope enumeration of import digraphs with sampled decorations + random graphs; call-sequence invariants on a recording Loader",
+         "Exploration with an exhaustive core: every import digraph (self loops included) on <= 3 (quick) / <= 4 (thorough) modules, each under 8 decorations (sub-directories, ./ and x/../ spellings, duplicate uses, missing targets, permuted uses), is loaded through a recording in-memory Loader that wraps the real parse/compile; reachable set, cycles and missing targets are computed independently and the call log must show exactly-once load/parse/compile in dependency order, the right error kind otherwise, and the same document after respelling and reordering.",
+         "Trusts the recording Loader wrapper and URL normalisation as the definition of 'the same file'. When a graph has both a cycle and a missing import either error is accepted.",
+         "DESIGN.md §4 C10"),
  "C11": ("generated programs with random trivia, mutants and arbitrary text; tiling / re-lex / leaf-sequence / hull / span-bounds invariants",
          "Exploration: for every generated text the token ranges must tile the text, each token's value must be its source slice and re-lex alone, the tree's leaves must be exactly the non-trivia tokens of the parsed prefix, each node's span the hull of its leaves, and every span on a syntax/compile/eval error or definition must lie in a module on character boundaries. Both directions are checked (nothing missing, nothing invented).",
          "Trusts TokenList's public cursor API as the observation of the token stream, and the harness's own span arithmetic.",
